@@ -252,7 +252,7 @@ func (ch *channel) Receive(ctx async.Context) ([]byte, status.Status) {
 
 		select {
 		case <-ctx.Wait():
-			return nil, ctx.Status()
+			return nil, contextStatus(ctx)
 		case <-wait:
 		}
 	}
